@@ -82,7 +82,12 @@ def run(job):
                 quantity._SYMBOL_UNIT_MAP[u.symbol] is u and \
                 u.qty_cls.get_unit_by_symbol(u.symbol) is u
             job.case("dirinv/live", u.symbol, ok, repr(first), "bucket holds unit")
-        for (op, a, b), (amnt, ru) in list(quantity._UNIT_OP_CACHE.items()):
+        for (op, a, b), entry in list(quantity._UNIT_OP_CACHE.items()):
+            if not (isinstance(entry, tuple) and len(entry) == 2):
+                job.case("cacheinv/live", (op.__name__, a.symbol, b.symbol), False,
+                         repr(entry), "an (amount, unit) result")
+                continue
+            amnt, ru = entry
             n1, v1 = O.den(a)
             n2, v2 = O.den(b)
             sgn = 1 if op is operator.mul else -1
